@@ -96,6 +96,13 @@ Theorem pc_level_counts : forall evs, cvalid cinit evs ->
   level (crun evs) = Z.of_nat (List.length (live (crun evs))).
 Proof. intros evs Hv. destruct (crun_inv evs cinit cinit_inv Hv) as [H _]. exact H. Qed.
 
+(** executable helper for the correspondence run: level and number of live coroutines after each event *)
+Fixpoint clevels (s : cstate) (evs : list cev) : list (Z * nat) :=
+  match evs with
+  | [] => []
+  | e :: t => let s' := cstep s e in (level s', List.length (live s')) :: clevels s' t
+  end.
+
 (** the barrier / shutdown loop `while self._pc_level > self._program_counter[1]: await sleep(0)` *)
 Definition loop_continues (lvl : Z) (depth : nat) : bool := (Z.of_nat depth <? lvl)%Z.
 
